@@ -243,7 +243,7 @@ func checkC10(c *vlib.Ctx) (string, string) {
 		hist   bool
 	}
 	var jobs []job
-	for _, pre := range [][]string{nil, {"before"}, {"Accept-Encoding", "origin"}} {
+	for _, pre := range [][]string{nil, {"before"}, {"Accept-Encoding", "origin"}, {"Origin-Agent-Cluster"}, {"X-Forwarded-Origin, Original-Url", "originx"}, {"Access-Control-Request-Headers-X, Access-Control-Request-Method"}} {
 		jobs = append(jobs, job{pass: true, preset: pre})
 		for _, l := range cfgs {
 			for _, d := range []bool{false, true} {
